@@ -28,6 +28,8 @@ pub enum Atom {
     AddNew,
     AddExisting,
     AddExpired,
+    /// a second expired key package, of another outsider
+    AddExpiredOther,
     UpdateByA,
     UpdateByAAgain,
     UpdateByB,
@@ -44,10 +46,11 @@ pub enum Atom {
     ReInit,
 }
 
-const BY_REF: [Atom; 17] = [
+const BY_REF: [Atom; 18] = [
     Atom::AddNew,
     Atom::AddExisting,
     Atom::AddExpired,
+    Atom::AddExpiredOther,
     Atom::UpdateByA,
     Atom::UpdateByAAgain,
     Atom::UpdateByB,
@@ -94,8 +97,8 @@ struct Roles {
 }
 
 fn seed_world(seed: usize) -> World {
-    let mut w = World::new(WorldCfg::default(), 7);
-    for p in 0..7 {
+    let mut w = World::new(WorldCfg::default(), 8);
+    for p in 0..8 {
         w.set_psk(p, 0, b"psk-zero-value".to_vec());
     }
     let r = w.run(|w| {
@@ -172,7 +175,7 @@ fn run_case(base: &[World], c: &Case, ctx: &mut Ctx) {
     let others: Vec<usize> = members.iter().copied().filter(|m| *m != k).collect();
     let roles = Roles { a: others[0], b: others[1], x: others[2] };
     let outsiders = w.outsiders();
-    let (o1, o2) = (outsiders[0], outsiders[1]);
+    let (o1, o2, o3) = (outsiders[0], outsiders[1], outsiders[2]);
     let table = std::mem::take(&mut w.stores);
     stores::install(table);
     let r = std::panic::catch_unwind(std::panic::AssertUnwindSafe(|| {
@@ -193,6 +196,10 @@ fn run_case(base: &[World], c: &Case, ctx: &mut Ctx) {
                 Atom::AddExpired => {
                     let kp = w.parties[o2].client.generate_key_package_message(Default::default(), Default::default(), Some(time(w.clock - 3 * 366 * 86400)));
                     kp.and_then(|kp| w.gm(roles.b).propose_add(kp, vec![]))
+                }
+                Atom::AddExpiredOther => {
+                    let kp = w.parties[o3].client.generate_key_package_message(Default::default(), Default::default(), Some(time(w.clock - 3 * 366 * 86400)));
+                    kp.and_then(|kp| w.gm(roles.a).propose_add(kp, vec![]))
                 }
                 Atom::UpdateByA | Atom::UpdateByAAgain => w.propose_update(roles.a),
                 Atom::UpdateByB => w.propose_update(roles.b),
@@ -218,7 +225,7 @@ fn run_case(base: &[World], c: &Case, ctx: &mut Ctx) {
         }
         // deliver: everybody in order, roles.x in reverse order; senders already have their own
         let sender_of = |a: Atom| match a {
-            Atom::AddNew | Atom::AddExisting | Atom::UpdateByA | Atom::UpdateByAAgain | Atom::RemoveX | Atom::RemoveCommitter | Atom::PskKnown | Atom::Gce1 | Atom::ReInit => roles.a,
+            Atom::AddNew | Atom::AddExisting | Atom::AddExpiredOther | Atom::UpdateByA | Atom::UpdateByAAgain | Atom::RemoveX | Atom::RemoveCommitter | Atom::PskKnown | Atom::Gce1 | Atom::ReInit => roles.a,
             Atom::UpdateByCommitter => k,
             _ => roles.b,
         };
@@ -340,7 +347,7 @@ fn run_case(base: &[World], c: &Case, ctx: &mut Ctx) {
             ctx.eval();
             let referenced = ks.as_ref().map(|(applied, _)| {
                 let key = match missed {
-                    Atom::AddNew | Atom::AddExisting | Atom::AddExpired => "add",
+                    Atom::AddNew | Atom::AddExisting | Atom::AddExpired | Atom::AddExpiredOther => "add",
                     Atom::UpdateByA | Atom::UpdateByAAgain | Atom::UpdateByB | Atom::UpdateByCommitter => "update",
                     Atom::RemoveX | Atom::RemoveXBySecondProposer | Atom::RemoveA | Atom::RemoveCommitter => "remove",
                     Atom::PskKnown | Atom::PskKnownAgain => "psk",
@@ -458,7 +465,7 @@ pub fn cases(tier: &str) -> Vec<Case> {
 pub fn meta(tier: &str) -> Meta {
     Meta {
         level: "model_checking",
-        rule: "every set of <= 3 of 17 by-reference proposal atoms (valid and invalid: add new / existing identity / expired key package, update by two members, the same member twice, the committer; remove by one or two proposers, of a proposer, of the committer; PSK once and twice; one or two GCEs; custom; re-init) x 8 by-value atoms (3 invalid) x committer x 2 seed trees (dense 5, interior blank 4), proposals sent by real members and delivered to everybody (one receiver in reverse order, one fork missing the first); a case is judged by receiver acceptance, equality of applied / unused sets and epoch state between committer and receivers, refusal + unchanged state of the member that misses a referenced proposal, and a coarse RFC 9420 12.2 rule table; states = cases".into(),
+        rule: "every set of <= 3 of 18 by-reference proposal atoms (valid and invalid: add new / existing identity / expired key package, update by two members, the same member twice, the committer; remove by one or two proposers, of a proposer, of the committer; PSK once and twice; one or two GCEs; custom; re-init) x 8 by-value atoms (3 invalid) x committer x 2 seed trees (dense 5, interior blank 4), proposals sent by real members and delivered to everybody (one receiver in reverse order, one fork missing the first); a case is judged by receiver acceptance, equality of applied / unused sets and epoch state between committer and receivers, refusal + unchanged state of the member that misses a referenced proposal, and a coarse RFC 9420 12.2 rule table; states = cases".into(),
         assumptions: {
             let mut a = default_assumptions();
             a.push("where RFC 9420 leaves the choice among conflicting proposals to the committer only agreement between committer and receivers is demanded".into());
